@@ -16,7 +16,7 @@ theorem kid_handle_mem {t k : HTree} (hk : k ∈ t.kids) : k.handle ∈ handles 
   induction ks with
   | nil => cases hk
   | cons a ks ih =>
-    rw [handlesList_cons, List.mem_append]
+    rw [fi_handlesList_cons, List.mem_append]
     rcases List.mem_cons.mp hk with e | e
     · subst e; exact Or.inl (fi_handle_mem_handles k)
     · exact Or.inr (ih e)
@@ -95,7 +95,7 @@ theorem reads_live {f : Forest} (hi : f.Inv) (r : Read) : ∀ x ∈ r.result f, 
     induction rs with
     | nil => cases ht
     | cons a rs ih =>
-      rw [handlesList_cons, List.mem_append]
+      rw [fi_handlesList_cons, List.mem_append]
       rcases List.mem_cons.mp ht with e | e
       · subst e; exact Or.inl (fi_handle_mem_handles t)
       · exact Or.inr (ih e)
